@@ -77,6 +77,14 @@ LLowered(c) == IF LFuses(c) THEN [i \in 1..3 |-> [j \in 1..3 |-> <<X3[i][j], Nor
                ELSE LMeaning(c)
 RatEq(a, b) == a[1] * b[2] = b[1] * a[2]
 
+\* ---------- sqrt(sum(x * x, axis)) -> ReduceL2, sum(|x|, axis) -> ReduceL1 as whole-axis norms ---------------
+\* (plugins/jax/lax/sqrt.py on top of the ReduceSumSquare fusion).  "shared": the sum of squares is used a second
+\* time next to its root, so it must survive the fusion.
+NCases == {[kind |-> "norm", p |-> p, axis |-> a, keep |-> k, shared |-> sh] :
+              p \in {1, 2}, a \in {0, 1, -1}, k \in BOOLEAN, sh \in BOOLEAN}
+NMeaning(c) == [k \in 1..3 |-> LET n == NormOf([p |-> c.p, axis |-> c.axis], k) IN
+                                IF c.shared THEN n + (IF c.p = 2 THEN n * n ELSE n) ELSE n]
+
 \* ---------- (a + b) / k  -> Mean(a, b) (plugins/jax/lax/div.py) --------------------------------------------
 \* lax.div on integers truncates toward zero; ONNX Mean is the exact average and exists for floats only.
 \* Results as rationals <<num, den>>.
@@ -110,7 +118,7 @@ OrderResult(c) ==
             IN <<(CHOOSE k \in 1..Len(c.bins) : c.bins[k] = best /\ \A k2 \in 1..(k - 1) : c.bins[k2] # best) - 1>>      \* FIRST occurrence
 
 VARIABLE case
-Init == case \in {c \in RCases : RLegal(c)} \cup OCases \cup LCases \cup HCases
+Init == case \in {c \in RCases : RLegal(c)} \cup OCases \cup LCases \cup HCases \cup NCases
 Next == UNCHANGED case
 Spec == Init /\ [][Next]_case
 
@@ -118,6 +126,10 @@ Spec == Init /\ [][Next]_case
 FusionSound == case.kind = "reduce" => Lowered(case) = Meaning(case)
 LpNormSound == case.kind = "lpnorm" => \A i, j \in 1..3 : RatEq(LLowered(case)[i][j], LMeaning(case)[i][j])
 MeanSound == case.kind = "halfsum" => \A i \in 1..2, j \in 1..3 : RatEq(HLowered(case)[i][j], HMeaning(case)[i][j])
+\* a norm is never negative and is zero only for a zero line; the 2-norm never exceeds the 1-norm
+NormLaws == case.kind = "norm" /\ ~case.shared => \A k \in 1..3 :
+    /\ NMeaning(case)[k] >= 0
+    /\ NormOf([p |-> 2, axis |-> case.axis], k) <= NormOf([p |-> 1, axis |-> case.axis], k)
 \* digitize is monotone in the query for increasing bins, antitone for decreasing ones; right = TRUE never exceeds right = FALSE
 \* for increasing bins (and never falls below it for decreasing ones); they differ exactly on ties
 DigitizeLaws == case.kind = "digitize" =>
@@ -127,6 +139,6 @@ DigitizeLaws == case.kind = "digitize" =>
     /\ \A q \in 1..Len(Queries) :
           (r[q] # other[q]) <=> (\E k \in 1..Len(case.bins) : case.bins[k] = Queries[q])
 Emit == PrintT(ToJson([c |-> case,
-                       x |-> IF case.kind = "reduce" THEN InputOf(case) ELSE IF case.kind = "lpnorm" THEN X3 ELSE IF case.kind = "halfsum" THEN XS ELSE <<Queries>>,
-                       want |-> IF case.kind = "reduce" THEN Meaning(case) ELSE IF case.kind = "lpnorm" THEN LMeaning(case) ELSE IF case.kind = "halfsum" THEN HMeaning(case) ELSE OrderResult(case)]))
+                       x |-> IF case.kind = "reduce" THEN InputOf(case) ELSE IF case.kind = "lpnorm" THEN X3 ELSE IF case.kind = "halfsum" THEN XS ELSE IF case.kind = "norm" THEN X3 ELSE <<Queries>>,
+                       want |-> IF case.kind = "reduce" THEN Meaning(case) ELSE IF case.kind = "lpnorm" THEN LMeaning(case) ELSE IF case.kind = "halfsum" THEN HMeaning(case) ELSE IF case.kind = "norm" THEN NMeaning(case) ELSE OrderResult(case)]))
 =============================================================================
